@@ -1,3 +1,94 @@
-From Coq Require Import NArith.
-From Cfg Require Import Model.Limits.
-Example C37_placeholder : closed init = false. Proof. reflexivity. Qed.
+(* C37 Connection limits are enforced.
+   Property theorems only; proofs in Proofs/Limits.v, model Model/Limits.v (the code after
+   fixes/C37-shared-poll-channel-length.patch and fixes/C37-map-subscribe-limit.patch),
+   specification predicate Model/LimitsSpec.v. *)
+From Coq Require Import List NArith Bool.
+From Cfg Require Import Model.Limits Model.LimitsSpec Proofs.Limits.
+Import ListNotations.
+Open Scope N_scope.
+
+(* For ALL configurations and ALL sequences of client subscribe commands (stream, shared-poll
+   and map routes, callbacks answered at once or held and completed in any order),
+   server-side subscribes, unsubscribes and enqueues: after every step the connection holds at
+   most [limit] channels, counting the reservations of subscribes still in flight. *)
+Theorem C37_limit_never_exceeded :
+  forall g ls t, trace g init ls = Some t ->
+    forall o s, In (o, s) t -> g_limit g = 0 \/ held s <= g_limit g.
+Proof. exact limit_invariant. Qed.
+Print Assumptions C37_limit_never_exceeded.
+
+(* The code before the fixes violates it: overlapping map subscribes with held callbacks all
+   pass the limit check (a map subscribe reserved nothing) and are all installed. *)
+Theorem C37_limit_prefix_refuted :
+  exists g ls t o s, trace_prefix g init ls = Some t /\ In (o, s) t /\ 0 < g_limit g /\ g_limit g < held s.
+Proof. exact limit_prefix_refuted. Qed.
+Print Assumptions C37_limit_prefix_refuted.
+
+(* At the limit a further (valid, new) client subscribe gets limit exceeded (106), nothing
+   is reserved and the application is not called ... *)
+Theorem C37_at_limit_client :
+  forall g s n len rt sc,
+    closed s = false -> 0 < g_limit g -> g_limit g <= held s ->
+    (g_maxlen g = 0 \/ len <= g_maxlen g) -> taken s n = false ->
+    sub_cmd g s n len rt sc = (s, [OReply 106]).
+Proof. exact at_limit_client. Qed.
+Print Assumptions C37_at_limit_client.
+
+(* ... and a server-side subscribe disconnects with channel limit (3505). *)
+Theorem C37_at_limit_server :
+  forall g s n,
+    closed s = false -> 0 < g_limit g -> g_limit g <= held s ->
+    exists s', srv_sub g s n = (s', [OClose 3505]) /\ closed s' = true.
+Proof. exact at_limit_server. Qed.
+Print Assumptions C37_at_limit_server.
+
+(* A client subscribe with an over-long channel name is rejected (107) on EVERY route, in
+   every state: nothing reserved, no application callback. *)
+Theorem C37_too_long_rejected :
+  forall g s n len rt sc,
+    closed s = false -> 0 < g_maxlen g -> g_maxlen g < len ->
+    sub_cmd g s n len rt sc = (s, [OReply 107]).
+Proof. exact too_long_rejected. Qed.
+Print Assumptions C37_too_long_rejected.
+
+(* The code before the fix violates this on the shared-poll route. *)
+Theorem C37_too_long_prefix_refuted :
+  exists g s n len sc, closed s = false /\ 0 < g_maxlen g /\ g_maxlen g < len /\
+    sub_cmd_prefix g s n len RSharedPoll sc <> (s, [OReply 107]).
+Proof. exact too_long_prefix_refuted. Qed.
+Print Assumptions C37_too_long_prefix_refuted.
+
+(* Queue limit: closed as slow (3008) exactly when the queued bytes exceed it. *)
+Theorem C37_slow_iff :
+  forall g s size,
+    closed s = false -> 0 < g_maxq g ->
+    (g_maxq g < q s + size ->
+       exists s', enqueue g s size = (s', [OClose 3008]) /\ closed s' = true) /\
+    (q s + size <= g_maxq g ->
+       exists s', enqueue g s size = (s', []) /\ closed s' = false /\ q s' = q s + size).
+Proof. exact slow_iff. Qed.
+Print Assumptions C37_slow_iff.
+
+(* Non-vacuity *)
+Example C37_ex_limit :
+  match trace (mkCfg 2 8 0) init
+          [LSub 1 3 RStream SAsync; LSub 2 3 RStream SAsync; LSub 3 3 RStream SOk; LComplete 0 true;
+           LComplete 1 false; LSub 3 3 RStream SOk; LSrvSub 10] with
+  | Some t => map fst t
+  | None => []
+  end = [[OHandler 1]; [OHandler 2]; [OReply 106]; [OReply 0]; [OReply 103]; [OHandler 3; OReply 0]; [OClose 3505]].
+Proof. vm_compute. reflexivity. Qed.
+Example C37_ex_map :
+  match trace (mkCfg 2 0 0) init
+          [LSub 1 3 RMap SAsync; LSub 2 3 RMap SAsync; LSub 3 3 RMap SAsync;
+           LComplete 0 true; LComplete 1 true; LComplete 2 true] with
+  | Some t => map fst t
+  | None => []
+  end = [[OHandler 1]; [OHandler 2]; [OHandler 3]; [OReply 0]; [OReply 0]; [OReply 106]].
+Proof. vm_compute. reflexivity. Qed.
+Example C37_ex_slow :
+  match trace (mkCfg 0 0 200) init [LEnqueue 100; LEnqueue 100; LEnqueue 40] with
+  | Some t => map fst t
+  | None => []
+  end = [[]; []; [OClose 3008]].
+Proof. vm_compute. reflexivity. Qed.
